@@ -329,3 +329,13 @@ Definition xop_eqb (a b : xop) : bool :=
   match a, b with XCb, XCb | XStep, XStep | XNorm, XNorm => true | _, _ => false end.
 Definition execute_trace (callbacks : bool) (n : nat) : list xop :=
   XCb :: concat (repeat (XStep :: (if callbacks then [XNorm; XCb] else [])) n) ++ [XNorm].
+
+(* ------------------------------------------------------------------ adiabatic interpolation *)
+(* BaseAdiabaticHamiltonian.__call__(t): h0 * (1 - st) + h1 * st with st = schedule(t / total_time).
+   For st = num / den the matrix times den, over the (Gaussian) integers *)
+Definition ad_ham (num den : Z) (H0 H1 : mat Zi) : mat Zi :=
+  madd ZK (mscale ZK ((den - num)%Z, 0%Z) H0) (mscale ZK (num, 0%Z) H1).
+(* polynomial schedules s(x) = x^p used by the correspondence *)
+Definition sched_pow (p : nat) (x : Q) : Q := Qred (Qpower x (Z.of_nat p)).
+(* SymbolicAdiabaticHamiltonian.circuit(dt, t): coefficients {h0: 1 - st, h1: st} *)
+Definition ad_coeffs (p : nat) (x : Q) : list Q := [Qred (1 - sched_pow p x); sched_pow p x].
